@@ -308,6 +308,15 @@ def linform(fn, fx, o, depth=0):
     if 1 <= p[0] <= fn.argc and len(fn.defs().get(p[0], [])) == 0:
         return {fn.names.get(p[0], "_%d" % p[0]): 1}
     d = fn.single_def(p[0])
+    if d is not None and d[1] == "call":
+        # a clamp of a value (`x.max(1)`, `min(a, b)`) is an opaque symbol: the same clamp of the same arguments is the same value
+        c = fn.call_at(d[0])
+        m = re.search(r"(?:cmp::|Ord>?::)(max|min)$", c.name)
+        if m:
+            args = [linform(fn, fx, a, depth + 1) for a in c.args]
+            if all(a is not None for a in args):
+                return {"%s(%s)" % (m.group(1), ", ".join(sorted(str(sorted(a.items())) for a in args))): 1}
+        return None
     if d is None or d[1] != "assign":
         return None
     rv = d[2]["rv"]
@@ -392,3 +401,35 @@ def loop_left_early(fn, loop):
             if st.get("lhs") and st["lhs"][0] == 0:
                 return n
     return None
+
+
+def positive(fn, fx, o, depth=0):
+    """is the usize operand o provably >= 1: a constant, NonZero::get, max(.., positive), min of positives, copies / casts of such"""
+    if depth > 10:
+        return False
+    k = o.get("k")
+    if k is not None:
+        if "cdef" in k:
+            v = fx.const(k["cdef"])
+            return isinstance(v, int) and v >= 1
+        return isinstance(k.get("v"), int) and k["v"] >= 1
+    p = o.get("m") or o.get("c")
+    if not p or len(p) != 1:
+        return False
+    ds = fn.defs().get(p[0], [])
+    if not ds:
+        return False
+    for node, kind, pl in ds:
+        if kind == "call":
+            c = fn.call_at(node)
+            if re.search(r"num::NonZero(<.*>)?::get$", c.name):
+                continue
+            if re.search(r"cmp::max$|Ord>?::max$", c.name) and any(positive(fn, fx, a, depth + 1) for a in c.args):
+                continue
+            if re.search(r"cmp::min$|Ord>?::min$", c.name) and all(positive(fn, fx, a, depth + 1) for a in c.args):
+                continue
+            return False
+        if kind == "assign" and pl["rv"]["r"] in ("use", "cast") and positive(fn, fx, pl["rv"]["o"], depth + 1):
+            continue
+        return False
+    return True
